@@ -462,8 +462,12 @@ def native_search(test_name, rounds=None, seed=0, timeout=5400):
         out = p.stdout + "\n" + p.stderr
     except subprocess.TimeoutExpired:
         return None, "native search timed out"
-    m = re.search(r"VERIF-SEARCH-HIT ([^\n]*)", out)
+    # a hit is the first line of a panic message of a test that RAN (a compiler diagnostic that quotes the source
+    # of a search test is not a hit)
+    m = re.search(r"^VERIF-SEARCH-HIT ([^\n]*)", out, re.M)
     ran = re.search(r"test result: (\w+)\. (\d+) passed; (\d+) failed", out)
+    if "could not compile" in out or not re.search(r"^running \d+ tests?", out, re.M):
+        return None, "native search did not run (build failed): " + out[-2500:]
     if m:
         return m.group(1).strip(), out[-3000:]
     if not ran:
